@@ -142,6 +142,26 @@ def gen(rng, n_manual, n_auto):
             repU = (k2 - k1) * dt + rng.choice([2, 3]) * dt
             c["faults"] = {str(k1): [[f"F0L{rng.randint(1, nu)}", str(repU)]], str(k2): [[f"F0L{1 + nu}", str(repU + 8)]]}
             c["n_inc"] = k2 + int((repU + 8 + 2 * T) / dt) + 8
+        if j % 12 == 2:
+            # targeted: a sectioning time that is not a whole number of steps (the timer passes zero and goes negative in the pass in
+            # which it runs out) and a second fault in another section while the breaker is still open for the first one
+            c = ctl.gen_scenario(rng, max_lines=5, nfeed=1, allow_mg=False)
+            fd = c["spec"]["feeders"][0]
+            while len(fd["parent"]) < 3:
+                fd["parent"].append(len(fd["parent"]) - 1)
+                for key, v in (("sw", 1), ("cust", 1), ("load", "1/50"), ("cost", 1)):
+                    fd[key].append(v)
+            nl = len(fd["parent"])
+            for i in range(1, nl):
+                if fd["sw"][i] == 0:
+                    fd["sw"][i] = rng.choice([1, 3])
+            c["spec"]["tie"] = None
+            dt = rng.choice([F(1), F(1, 2)]); c["dt"] = str(dt)
+            T = dt * rng.choice([F(3, 2), F(5, 2), F(4, 3)]); c["spec"]["ctrl"]["T"] = str(T)
+            a, b = rng.sample(range(1, nl), 2)
+            k1 = rng.randint(1, 3)
+            c["faults"] = {str(k1): [[f"F0L{a}", str(T + 6 * dt)]], str(k1 + 1): [[f"F0L{b}", str(T + 8 * dt)]]}
+            c["n_inc"] = k1 + int((2 * T + 10 * dt + 4) / dt) + 8
         if j % 6 == 5:
             ctl.add_second(rng, c)       # two iterations on the same objects (reset_system between)
         if j % 6 == 3:
